@@ -358,6 +358,40 @@ def run(ck: Check):
         if not ok:
             ck.disagree("load_state_dict accepted a checkpoint of a layer with another geometry and installed wiring that does not fit",
                         {"name": name}, signature={"what": "foreign-checkpoint", "name": name})
+    # a checkpoint that went through user code on its way: re-keyed into a plain dict (torch's `_metadata` attribute - the module
+    # versions - is lost), a "module." prefix stripped, an OrderedDict rebuilt from items.  The wiring is IN the checkpoint under
+    # `_extra_state`; a rebuilt model (another seed) must end up with it, whatever the container
+    import collections
+    from torchlogix.layers import LogicConv3d as _LC3
+    rekey = {"plain-dict": lambda sd: {k: v for k, v in sd.items()},
+             "prefix-stripped": lambda sd: {k[len("module."):]: v for k, v in {"module." + k: v for k, v in sd.items()}.items()},
+             "ordered-from-items": lambda sd: collections.OrderedDict(list(sd.items()))}
+    makers = {"conv2d": lambda: torch.nn.Sequential(LogicConv2d(in_dim=(4, 4), device="cpu", channels=2, num_kernels=3, tree_depth=2,
+                                                                 receptive_field_size=2, padding=1), torch.nn.Flatten(),
+                                                     LogicDense(75, 12, device="cpu")),
+              "conv3d": lambda: torch.nn.Sequential(_LC3(in_dim=(3, 3, 3), device="cpu", channels=1, num_kernels=2, tree_depth=1,
+                                                          receptive_field_size=2)),
+              "dense-unique": lambda: torch.nn.Sequential(LogicDense(9, 14, device="cpu", connections="unique"))}
+    for mname, mk in makers.items():
+        for rname, rk in rekey.items():
+            torch.manual_seed(ck.seed + 11)
+            src_m = mk().eval()
+            torch.manual_seed(ck.seed + 12)
+            dst_m = mk().eval()
+            case_r = {"kind": "rekeyed-checkpoint", "model": mname, "container": rname}
+            ck.case(case_r, nontrivial=True, kind="rekeyed-checkpoint")
+            try:
+                dst_m.load_state_dict(rk(src_m.state_dict()))
+            except Exception as e:
+                continue                                    # a refused checkpoint is loud
+            shape_r = {"conv2d": (2, 4, 4), "conv3d": (1, 3, 3, 3), "dense-unique": (9,)}[mname]
+            xr = (torch.rand(64, *shape_r, generator=torch.Generator().manual_seed(5)) > 0.5).float()
+            with torch.no_grad():
+                ya, yb = src_m(xr), dst_m(xr)
+            if not torch.equal(ya, yb):
+                ck.disagree("a model restored from a re-keyed copy of its own state dict computes another function (the wiring in the checkpoint was not installed)",
+                            dict(case_r, differing_samples=int((ya != yb).reshape(64, -1).any(-1).sum())),
+                            signature={"what": "rekeyed-checkpoint", "model": mname})
     # state that decides the eval function but is set after construction: wiring written by hand on layer.indices (the code
     # generator and forward both read it), the frozen mode of the learnable thermometer.  Saved with the state, rebuilt with the same
     # constructor arguments under another seed, loaded: same function
